@@ -51,7 +51,7 @@ type faultQ struct {
 
 func callerOf() string {
 	pcs := make([]uintptr, 16)
-	n := runtime.Callers(3, pcs)
+	n := runtime.Callers(2, pcs)
 	fr := runtime.CallersFrames(pcs[:n])
 	for {
 		f, more := fr.Next()
@@ -163,10 +163,20 @@ func (q *faultQ) Clear() error {
 type countTrigger struct {
 	quartz.Trigger
 	calls atomic.Int64
+	mu    sync.Mutex
+	fires map[int64]bool // distinct fire times for which the loop asked for the successor (one per valid fetch)
 }
 
 func (t *countTrigger) NextFireTime(prev int64) (int64, error) {
 	t.calls.Add(1)
+	if c := callerOf(); c == "fetchAndReschedule" || c == "validateJob" {
+		t.mu.Lock()
+		if t.fires == nil {
+			t.fires = map[int64]bool{}
+		}
+		t.fires[prev] = true
+		t.mu.Unlock()
+	}
 	return t.Trigger.NextFireTime(prev)
 }
 
@@ -191,6 +201,7 @@ type faultResult struct {
 	MinFailGap  map[string]int64 `json:"min_failing_gap_us"`   // between consecutive failing loop calls of one method (quiet phases only)
 	Execs       map[string]int64 `json:"execs"`
 	TrigCalls   map[string]int64 `json:"trigger_calls"`
+	FireTimes   map[string]int   `json:"distinct_fire_times_fetched"`
 	Stored      []string         `json:"stored_after_faults"`
 	Recovered   map[string]bool  `json:"fired_after_faults"`
 	WaitOK      bool             `json:"wait_returned"`
@@ -227,6 +238,9 @@ func runFault(id int, plan faultPlan, seed int) faultResult {
 		return ct
 	}
 	var apis []apiRec
+	var lastErr error
+	// which jobs the caller has every reason to believe are active: a call that returned an error changed nothing
+	active := map[string]bool{}
 	api := func(name string, f func() error) {
 		seq := q.apiSeq.Add(1)
 		t0 := time.Now()
@@ -240,6 +254,7 @@ func runFault(id int, plan faultPlan, seed int) faultResult {
 			err = errors.New("hung")
 		}
 		r := apiRec{Seq: seq, Name: name, Started: s.IsStarted(), TookMs: int64(time.Since(t0) / time.Millisecond)}
+		lastErr = err
 		switch {
 		case err == nil:
 			r.Err = "nil"
@@ -253,8 +268,32 @@ func runFault(id int, plan faultPlan, seed int) faultResult {
 	ms := func(n int) { time.Sleep(time.Duration(n) * time.Millisecond) }
 	quiet := plan.Kind == "burst"
 	// ---- the fixed scenario ----
-	api("ScheduleJob", func() error { return s.ScheduleJob(job("a"), trig("a", quartz.NewSimpleTrigger(30*time.Millisecond))) })
-	api("ScheduleJob", func() error { return s.ScheduleJob(job("b"), trig("b", quartz.NewSimpleTrigger(50*time.Millisecond))) })
+	sched := func(k string, t quartz.Trigger) {
+		api("ScheduleJob", func() error { return s.ScheduleJob(job(k), trig(k, t)) })
+		if lastErr == nil {
+			active[k] = true
+		}
+	}
+	pause := func(k string) {
+		api("PauseJob", func() error { return s.PauseJob(quartz.NewJobKey(k)) })
+		if lastErr == nil {
+			active[k] = false
+		}
+	}
+	resume := func(k string) {
+		api("ResumeJob", func() error { return s.ResumeJob(quartz.NewJobKey(k)) })
+		if lastErr == nil {
+			active[k] = true
+		}
+	}
+	del := func(k string) {
+		api("DeleteJob", func() error { return s.DeleteJob(quartz.NewJobKey(k)) })
+		if lastErr == nil {
+			delete(active, k)
+		}
+	}
+	sched("a", quartz.NewSimpleTrigger(30*time.Millisecond))
+	sched("b", quartz.NewSimpleTrigger(50*time.Millisecond))
 	ctx, cancel := context.WithCancel(context.Background())
 	defer cancel()
 	s.Start(ctx)
@@ -269,33 +308,44 @@ func runFault(id int, plan faultPlan, seed int) faultResult {
 		ms(70)
 		api("GetJobKeys", func() error { _, err := s.GetJobKeys(); return err })
 		api("GetScheduledJob", func() error { _, err := s.GetScheduledJob(quartz.NewJobKey("a")); return err })
-		api("PauseJob", func() error { return s.PauseJob(quartz.NewJobKey("a")) })
+		pause("a")
 		ms(40)
-		api("ResumeJob", func() error { return s.ResumeJob(quartz.NewJobKey("a")) })
-		api("ScheduleJob", func() error { return s.ScheduleJob(job("c"), trig("c", quartz.NewRunOnceTrigger(10*time.Millisecond))) })
-		api("ScheduleJob", func() error { return s.ScheduleJob(job("d"), trig("d", quartz.NewSimpleTrigger(40*time.Millisecond))) })
+		resume("a")
+		sched("c", quartz.NewRunOnceTrigger(10*time.Millisecond))
+		sched("d", quartz.NewSimpleTrigger(40*time.Millisecond))
 		ms(60)
-		api("DeleteJob", func() error { return s.DeleteJob(quartz.NewJobKey("b")) })
+		del("b")
 		api("GetJobKeys", func() error { _, err := s.GetJobKeys(); return err })
-		api("PauseJob", func() error { return s.PauseJob(quartz.NewJobKey("d")) })
+		pause("d")
 		api("GetScheduledJob", func() error { _, err := s.GetScheduledJob(quartz.NewJobKey("d")); return err })
-		api("ResumeJob", func() error { return s.ResumeJob(quartz.NewJobKey("d")) })
-		api("DeleteJob", func() error { return s.DeleteJob(quartz.NewJobKey("nope")) })
+		resume("d")
+		del("nope")
 		ms(80)
-		api("Clear", func() error { return s.Clear() })
-		api("ScheduleJob", func() error { return s.ScheduleJob(job("e"), trig("e", quartz.NewSimpleTrigger(25*time.Millisecond))) })
-		api("ScheduleJob", func() error { return s.ScheduleJob(job("f"), trig("f", quartz.NewSimpleTrigger(35*time.Millisecond))) })
+		if plan.Kind == "single" && plan.Method != "Clear" && plan.Index%2 == 1 {
+			// in half of the single-fault runs the jobs scheduled first stay until the end
+			api("GetJobKeys", func() error { _, err := s.GetJobKeys(); return err })
+		} else {
+			api("Clear", func() error { return s.Clear() })
+			if lastErr == nil {
+				active = map[string]bool{}
+			}
+		}
+		sched("e", quartz.NewSimpleTrigger(25*time.Millisecond))
+		sched("f", quartz.NewSimpleTrigger(35*time.Millisecond))
 		ms(120)
 	}
 	// ---- faults stop; every active stored job must fire again ----
 	q.on.Store(false)
 	tOff := int64(time.Since(q.base) / time.Microsecond)
 	ms(10)
+	// every job that is still stored and that the caller believes active (its last successful call was not a
+	// pause) must fire again; the Suspended flag itself is not consulted
 	stored := map[string]bool{}
 	if js, err := q.inner.ScheduledJobs(nil); err == nil {
 		for _, j := range js {
-			if !j.JobDetail().Options().Suspended {
-				stored[j.JobDetail().JobKey().Name()] = true
+			k := j.JobDetail().JobKey().Name()
+			if active[k] && k != "c" {
+				stored[k] = true
 			}
 		}
 	}
@@ -399,8 +449,12 @@ func runFault(id int, plan faultPlan, seed int) faultResult {
 	for k, v := range execs {
 		res.Execs[k] = v.Load()
 	}
+	res.FireTimes = map[string]int{}
 	for k, v := range trigs {
 		res.TrigCalls[k] = v.calls.Load()
+		v.mu.Lock()
+		res.FireTimes[k] = len(v.fires)
+		v.mu.Unlock()
 	}
 	return res
 }
